@@ -4,14 +4,14 @@ TITLE = "Argument-vector utilities are consistent"
 UA = "parsec/utils/argv.c"
 UC = "parsec/utils/cmd_line.c"
 ARGSIZE_PATCH = [(UA, r"#define ARGSIZE 128", "#define ARGSIZE 4")]
-OUTSIDE = ["strings longer than 4 (thorough 5) characters / alphabets other than {a, b, delimiter} for split/join (plus one concrete 129-character token through the unpatched ARGSIZE=128 code)",
+OUTSIDE = ["strings longer than 4 (thorough 5) characters / alphabets other than {a, b, delimiter} for split/join", "the literal buffer size ARGSIZE=128 of parsec_argv_split_inter: both of its paths (stack buffer, malloc'ed copy) are covered with the constant lowered to 4; a query on the unpatched file with one concrete 129-character token gave no verdict in 1800 s (every write to the 128-byte buffer adds ~1k SAT variables)",
            "vectors longer than 3 (thorough 4) strings for insert/delete",
            "command lines with more than 2 tokens after argv[0], options with more than one parameter, single-dash multi-character names, options bound to MCA parameters or destination variables, the help/usage text",
            "for a rejected command line only the return code is compared (what ends up in the tail after an error is not specified)",
            "allocation failure; concurrent use of one handle",
            "parsec_argv_join_range, parsec_argv_len, parsec_argv_prepend_nosize, parsec_argv_append_unique_nosize"]
 ASSUMPTIONS = ["split.c / cmdl.c / vec.c choose the input through symbolic indices decoded in loops with concrete counters, so that each instance is folded by symbolic execution; all inputs inside the bounds are covered by the one SAT query (measured: a directly symbolic character array makes every allocation size symbolic and CBMC's array theory does not terminate, > 280 s for strings of length 2)",
-               "split queries compile argv.c with ARGSIZE lowered 128 -> 4 in a scratch overlay (regex patch, re-applied on every run): the constant only selects stack buffer vs. malloc'ed copy, with 4 both paths are inside the string bound; with 128 every write to the 128-byte buffer costs 1k SAT variables (4 M variables at length 2). The unpatched constant is exercised by query longtok",
+               "split queries compile argv.c with ARGSIZE lowered 128 -> 4 in a scratch overlay (regex patch, re-applied on every run): the constant only selects stack buffer vs. malloc'ed copy, with 4 both paths are inside the string bound; with 128 every write to the 128-byte buffer costs 1k SAT variables (4 M variables at length 2).",
                "reference scanners / reference command-line parser are harness code written from argv.h / cmd_line.h (validated natively against the real code on every input of the quick tier during development)",
                "parsec_mca_var_env_name stub (never reached: no option bound to an MCA parameter); strtoul stub in CBMC mode (value unused)",
                "known findings C39-split-trailing-empty and C39-delete-argc excluded by class until repaired (FINDING.md)"]
@@ -38,9 +38,6 @@ def queries(ctx):
                               "enumerated": ["with / without empty fields"],
                               "functions": ["parsec_argv_split", "parsec_argv_split_with_empty", "parsec_argv_split_inter", "parsec_argv_append", "parsec_argv_append_nosize", "parsec_argv_join", "parsec_argv_count", "parsec_argv_free"],
                               "stubs": ["none"], "patched": ["ARGSIZE 128 -> 4 (overlay)"], "bounds": {"L": l}}))
-    qs.append(Q("longtok", ["longtok.c", "repo:" + UA], unwind=140, checks=["bounds", "pointer"], object_bits=10, timeout=1800,
-                info={"symbolic": ["delimiter among 3", "split flavour"], "functions": ["parsec_argv_split_inter (unpatched ARGSIZE, malloc'ed copy path)", "parsec_argv_join"],
-                      "stubs": ["none"], "bounds": {"token": "one concrete 129-character token between two short fields"}}))
     for k in ([0, 1, 2, 3, 4] if ctx.thorough else [0, 1, 3]):
         tiers = ("quick", "thorough") if k in (0, 1, 3) else ("thorough",)
         for op, opn in ((0, "delete"), (1, "insert"), (2, "insert_element")):
